@@ -22,7 +22,7 @@ func monitorCallbacks(w *world.World) (rule, msg string) {
 	for _, ev := range w.Log {
 		switch ev.Kind {
 		case "api:Close":
-			if ev.Phase == "return" {
+			if ev.Phase == "return" && closedAt < 0 {
 				closedAt = ev.Seq
 				for name, p := range peers {
 					if p.state != 0 {
